@@ -165,8 +165,15 @@ func fieldClass(path string) string {
 	if m := prodRe.FindStringSubmatch(c); m != nil {
 		c = m[1] + "Producer." + m[3]
 	}
+	// An arbiter list / map of the checkpoint is one class: which field of
+	// which member differs is in the message.
+	if m := arbListRe.FindStringSubmatch(c); m != nil {
+		c = m[1]
+	}
 	return c
 }
+
+var arbListRe = regexp.MustCompile(`^(CheckPoint\.(LastArbitrators|CurrentArbitrators|NextArbitrators|CurrentCandidates|NextCandidates|NextCRCArbiters|CurrentCRCArbitersMap|CurrentOnDutyCRCArbitersMap|NextCRCArbitersMap))[./].*$`)
 
 var prodRe = regexp.MustCompile(`^(State\.|History\.)(Pending|Activity|Inactive|Canceled|Illegal|PendingCanceled|DposV2Effected)Producers\.(.+)$`)
 
@@ -195,7 +202,7 @@ func keyPrefixes(ls []leaf) map[string]bool {
 func absentClass(path string, other map[string]bool) string {
 	for i := 0; i < len(path); i++ {
 		if path[i] == '}' && !other[path[:i+1]] {
-			return fieldClass(path[:i+1]) + "/key-set"
+			return fieldClass(path[:i+1] + "/key-set")
 		}
 	}
 	return fieldClass(path)
